@@ -56,12 +56,20 @@ def const_str_of(facts, node, depth=0):
     return None
 
 
+_FACTS = None
+
+
 def header_of_get(node):
     """Header identity of a HeaderMap::get(..) call in the provenance of node."""
     for x in walk(node):
         if x.kind == "call" and x[6] == "get" and "HeaderMap" in x[1] and len(x[3]) > 1:
             k = strip(x[3][1])
             if k.kind == "constx":
+                if k[3] and _FACTS is not None and k[3] in _FACTS.by_dp:
+                    # a const item of this workspace naming the header: its string value
+                    v = const_str_of(_FACTS, k)
+                    if v is not None:
+                        return v
                 if k[3]:
                     return k[3].split("::")[-1]
                 s = (k[1] or "").replace("const ", "")
@@ -186,6 +194,8 @@ def handler_paths(facts, b):
 
 
 def check(facts, rep, tier, cfg):
+    global _FACTS
+    _FACTS = facts
     crate = facts.crate("rusty_penguin_lib")
     if crate is None:
         rep.bad("C14.R1", "crate", "", "rusty_penguin_lib facts missing")
